@@ -62,6 +62,22 @@ fn replay_value(id: &str, case: &Value) -> i32 {
         return 2;
     };
     let rep = report::Report::new(id, "quick", p.level);
+    if case["what"].as_str() == Some("writer-setup") {
+        let hist: Vec<drv::Op> = serde_json::from_value(case["hist"].clone()).unwrap_or_default();
+        // in a supervised child a failing set-up aborts (see sup::setup_failed); here it panics
+        return match drv::guard_sync(|| {
+            let _ = props::c03::build_writer(&hist);
+        }) {
+            drv::Out::Ok(()) => {
+                println!("not reproduced: the set-up history works on this tree");
+                0
+            }
+            o => {
+                println!("REPRODUCED property={} clause=writer-setup :: a plain writer history fails: {}", id, o.brief());
+                1
+            }
+        };
+    }
     (p.replay)(case, &rep);
     let vs = rep.violations();
     for v in &vs {
@@ -90,11 +106,13 @@ fn main() {
     }
     if args[0] == "--replay-case" {
         sup::child_init();
+        sup::set_current_prop(&args[1]);
         sup::set_case("{}");
         let v: Value = serde_json::from_str(&args[2]).expect("case json");
         std::process::exit(replay_value(&args[1], &v));
     }
     let id = args[0].clone();
+    sup::set_current_prop(&id);
     let tier = args.get(1).cloned().unwrap_or_else(|| "quick".into());
     let Some(p) = find(&id) else {
         eprintln!("unknown property {id}");
